@@ -32,7 +32,30 @@ def mk(docs, job, cfg):
     x.fn_models['PathBuf::from'] = f_pathbuf_from
     x.method_models[('PathV', 'push')] = m_push
     x.fn_models['checksum64'] = lambda x, a, e: x.symbv('fnv')
-    x.fn_models['std::env::var_os'] = lambda x, a, e: Some(PathV([VStr([z3.IntVal(ord(c)) for c in '/data'])])) if x.flip('env_data_dir_set') else NONE
+    def f_var_os(x, a, e):
+        if getattr(x, 'env_dir', None) is not None:
+            return Some(PathV([VStr([z3.IntVal(ord(c)) for c in x.env_dir])]))
+        return Some(PathV([VStr([z3.IntVal(ord(c)) for c in '/data'])])) if x.flip('env_data_dir_set') else NONE
+    x.fn_models['std::env::var_os'] = f_var_os
+
+    def driver_env_twice(x):
+        # two constructions in one process with WALRUS_DATA_DIR changed in between: each root must lie in the
+        # data directory configured at its own construction (C13: instances whose data directories differ)
+        key = VStr([z3.IntVal(ord(c)) for c in 'tenant'])
+        x.fn_models['thread_namespace'] = lambda x, a, e: NONE
+        x.fn_models['std::env::var'] = lambda x, a, e: Err(PStr('NotPresent'))
+        roots = []
+        for d in ('/data1', '/data2'):
+            x.env_dir = d
+            pm = x.call('WalPathManager', 'for_key', [key]) if job.get('via', 'for_key') == 'for_key' else x.call('WalPathManager', 'default', [])
+            root = x.deref(x.deref(pm).f['root'])
+            first = ''.join(chr(x.concretize(c)) for c in root.comps[0].c)
+            roots.append(first)
+            if first != d:
+                return dict(job=job, verdict='cex', detail='instance constructed with WALRUS_DATA_DIR=%s got root under %s' % (d, first), witness=dict(key='tenant', ctor='env_twice', dirs=['/data1', '/data2']))
+        return dict(job=job, verdict='ok', witness=dict(key='tenant', ctor='env_twice', roots=roots))
+    if ctor == 'env_twice':
+        return x, driver_env_twice
 
     def driver(x):
         if 'key' in job:
